@@ -26,6 +26,30 @@ def main(argv):
         print("tier must be quick or thorough")
         return 2
     ctx = Ctx(pid, tier)
+    escalate = tier == "quick" and os.environ.get("VERIF_NO_ESCALATE") != "1"
+    ctx.defer_no_input = escalate
+    rc = run_once(mod, ctx)
+    deferred = [v for v in ctx.violations if v.get("deferred")]
+    if not deferred:
+        return rc
+    if rc == 1 and len(deferred) == len(ctx.violations):
+        # a proof obligation or tie is broken and the quick search found no input on which the property fails: search with the
+        # budgets of the thorough tier before reporting "no failing input found"
+        print(f"[{pid}] broken obligation / tie and no failing input in the quick search: escalating to the thorough search "
+              f"({'; '.join(ctx.broken)[:300]})", flush=True)
+        ctx2 = Ctx(pid, "thorough")
+        ctx2.defer_no_input = False
+        ctx2.cov["escalated_from_quick"] = True
+        rc2 = run_once(mod, ctx2)
+        if rc2 == 1 and ctx2.violations:
+            return 1
+        print(f"[{pid}] the escalated search ended with exit {rc2}; reporting the result of the quick search", flush=True)
+    for v in deferred:
+        ctx.print_violation(v)
+    return 1 if ctx.violations else rc
+
+
+def run_once(mod, ctx):
     try:
         return mod.run(ctx)
     except SystemExit:
